@@ -118,11 +118,15 @@ func setStr(m map[string]bool) string {
 func init() {
 	harness.Register(&harness.Check{
 		ID: "C14", Level: "model_checking",
-		Rule: "for every driver/example/generated program P: every admissible renaming of E-ren (each bound channel name and function parameter renamed to every identifier that occurs elsewhere in the program but not in the same declaration - collision seeking - and to fresh names; top-level process names; type names, function names and labels renamed to fresh names and swapped pairwise; a type named like a mode) and every permutation of the declarations (all n! for n <= 5, else transpositions, rotations, reversal); for generated programs the channel-name renamings are restricted to the generated function and the declaration permutations to a few; renamings under which the reference typechecker's own verdict changes (P or r(P) breaks the no-shadowing convention for binders) are skipped; oracle: verdict(P) = verdict(r(P)), and for accepted terminating P the outcomes of r(P) (printed multiset, completion, panics) under the default schedule (quick) / all schedules with delay <= 1 (thorough) in both polarized modes are among the outcomes of P explored with delay <= 1; states/transitions as in C01",
+		Rule: "for every driver/example/generated program P: every admissible renaming of E-ren (each bound channel name and function parameter renamed to every identifier that occurs elsewhere in the program but not in the same declaration - collision seeking - and to fresh names; top-level process names; type names, function names and labels renamed to fresh names and swapped pairwise; a type named like a mode) and every permutation of the declarations (all n! for n <= 5, else transpositions, rotations, reversal); for generated programs the channel-name renamings are restricted to the generated function and the declaration permutations to a few; renamings under which the reference typechecker's own verdict changes (P or r(P) breaks the no-shadowing convention for binders) are skipped; additionally, for every program M obtained from P by renaming ONE binding occurrence to another identifier of the program (the collision-seeking binder mutants, mostly rejected programs) every alpha-renaming of one binder of M to a fresh name; oracle: verdict(P) = verdict(r(P)) (same for M), and for accepted terminating P the outcomes of r(P) (printed multiset, completion, panics) under the default schedule (quick) / all schedules with delay <= 1 (thorough) in both polarized modes are among the outcomes of P explored with delay <= 1; states/transitions as in C01",
 		Assumptions: append([]string{"renamings are computed on the reference AST by an independent binder analysis (ref/terms.go, gen/ren.go)"}, mcAssumptions...),
-		Cases:       func(c *harness.Ctx) int { return getRenSpace(c).total },
+		Cases:       func(c *harness.Ctx) int { return getRenSpace(c).total + len(getRenSpace(c).bases) },
 		Run: func(c *harness.Ctx, idx int, r *harness.Rec) {
 			rs := getRenSpace(c)
+			if idx >= rs.total {
+				c14Collisions(c, rs.bases[idx-rs.total], r)
+				return
+			}
 			var base baseProg
 			var k int
 			for bi := len(rs.bases) - 1; bi >= 0; bi-- {
@@ -203,6 +207,46 @@ func init() {
 			}
 		},
 	})
+}
+
+// c14Collisions: verdict invariance on the rejected side. Every binder mutant M of the base (one binding
+// occurrence renamed to another identifier of the program, uses untouched) against every alpha-renaming
+// of one binder of M to a fresh name; pairs on which the reference verdict differs (the collision was the
+// reason for the rejection, or M uses the binder's old name) are skipped.
+func c14Collisions(c *harness.Ctx, base baseProg, r *harness.Rec) {
+	muts := gen.BinderMutants(base.P)
+	for _, m := range muts {
+		mtext := m.P.String()
+		vm, _ := ref.CheckProgram(m.P.Copy(), true)
+		if vm.Kind == "unknown" {
+			continue
+		}
+		rens := gen.FreshBinderRenamings(m.P)
+		if len(rens) == 0 {
+			continue
+		}
+		gm := TypecheckText(mtext, nil, nil)
+		r.Add("evaluations", 1)
+		if gm.ParseErr != "" || len(gm.Panics) > 0 || gm.Blocked {
+			continue // C09/C12/C15
+		}
+		for _, rn := range rens {
+			vr, _ := ref.CheckProgram(rn.P.Copy(), true)
+			if vr.Kind != vm.Kind {
+				continue
+			}
+			rtext := rn.P.String()
+			g := TypecheckText(rtext, nil, nil)
+			r.Add("evaluations", 1)
+			r.Add("collision_pairs", 1)
+			if g.ParseErr != "" || len(g.Panics) > 0 || g.Blocked {
+				continue
+			}
+			if (g.TypeErr == "") != (gm.TypeErr == "") {
+				viol(r, "verdict changes under renaming/permutation: binder (colliding program)", fmt.Sprintf("%s / %s, then %s: accepted=%v (%s) before the renaming, accepted=%v (%s) after it; the reference verdict is %s for both", base.Name, m.Desc, rn.Desc, gm.TypeErr == "", gm.TypeErr, g.TypeErr == "", g.TypeErr, vm.Kind), rtext, map[string]interface{}{"original": mtext})
+			}
+		}
+	}
 }
 
 func renClass(desc string) string {
